@@ -357,6 +357,73 @@ def extract(text, variant):
 
     _try('buffers', g_buffers, failed)
 
+    def g_layers():
+        # ---- order in which the layers of one state receive a callback (C15):
+        #      S_::deepX  — the state's own callback before or after Head::wideX
+        #      A_<First, Rest...>::wideX — First::X before or after Rest::wideX
+        methods = ["entryGuard", "enter", "reenter", "preUpdate", "update", "postUpdate", "preReact", "react", "postReact",
+                   "query", "exitGuard", "exit"]
+        own_first, rest_first = [], []
+        def body_of(header_rx, what):
+            m = find1(header_rx + r"[^{;]*\{", t, what)
+            i, depth = m.end(), 1
+            while i < len(t) and depth:
+                depth += {"{": 1, "}": -1}.get(t[i], 0)
+                i += 1
+            return t[m.end():i - 1]
+        for code, x in enumerate(methods):
+            X = x[0].upper() + x[1:]
+            b = body_of(r"\bS_<NN_,\s*TA_,\s*TH_>::deep%s\s*\(" % X, "S_::deep%s" % X)
+            own = [m_.start() for m_ in re.finditer(r"\bHead::\s*%s\s*\(" % x, b)]
+            if not own and re.search(r"&\s*Head::%s\s*\)" % x, b):
+                # react family / query: the member is taken by pointer (overload selection) and called through it
+                own = [m_.start() for m_ in re.finditer(r"\(\s*this\s*->\*\s*method\s*\)\s*\(", b)]
+            wide = [m_.start() for m_ in re.finditer(r"\bHead::\s*wide%s\s*\(" % X, b)]
+            if len(own) != 1 or len(wide) != 1:
+                raise TranslateError("S_::deep%s: expected exactly one Head::%s(...) and one Head::wide%s(...), found %d / %d" % (X, x, X, len(own), len(wide)))
+            if own[0] < wide[0]:
+                own_first.append(code)
+            b = body_of(r"\bA_<TF_,\s*TR_\.\.\.>::wide%s\s*\(" % X, "A_<First, Rest...>::wide%s" % X)
+            first = [m_.start() for m_ in re.finditer(r"\bFirst::\s*%s\s*\(" % x, b)]
+            rest = [m_.start() for m_ in re.finditer(r"\bRest\s*::\s*wide%s\s*\(" % X, b)]
+            if len(first) != 1 or len(rest) != 1:
+                raise TranslateError("A_::wide%s: expected exactly one First::%s(...) and one Rest::wide%s(...), found %d / %d" % (X, x, X, len(first), len(rest)))
+            if rest[0] < first[0]:
+                rest_first.append(code)
+            b = body_of(r"\bA_<TF_>::wide%s\s*\(" % X, "A_<First>::wide%s" % X)
+            if len(re.findall(r"\bFirst::\s*%s\s*\(" % x, b)) != 1 or "wide" in b:
+                raise TranslateError("A_<First>::wide%s: expected exactly First::%s(...)" % (X, x))
+        for X, x in (("PlanSucceeded", "planSucceeded"), ("PlanFailed", "planFailed")):
+            b = body_of(r"\bS_<NN_,\s*TA_,\s*TH_>::wrap%s\s*\(" % X, "S_::wrap%s" % X)
+            if len(re.findall(r"\bHead::\s*%s\s*\(" % x, b)) != 1 or "wide" in b:
+                raise TranslateError("S_::wrap%s: expected exactly Head::%s(...) and no wide call" % (X, x))
+        d["ownFirstCodes"] = ("", "[%s]" % ", ".join(map(str, own_first)))
+        d["restFirstCodes"] = ("", "[%s]" % ", ".join(map(str, rest_first)))
+
+    _try('layers', g_layers, failed)
+
+    def g_phases():
+        # ---- C_::deepX for the update / react phases and query: the root head before or after the active sub-state (C05)
+        methods = {"preUpdate": 3, "update": 4, "postUpdate": 5, "preReact": 6, "react": 7, "postReact": 8, "query": 9}
+        head_first = []
+        for x, code in methods.items():
+            X = x[0].upper() + x[1:]
+            m = find1(r"\bC_<TA_,\s*TH_,\s*TS_\.\.\.>::deep%s\s*\([^{;]*\{" % X, t, "C_::deep%s" % X)
+            i, depth = m.end(), 1
+            while i < len(t) and depth:
+                depth += {"{": 1, "}": -1}.get(t[i], 0)
+                i += 1
+            b = t[m.end():i - 1]
+            head = [q.start() for q in re.finditer(r"\bHeadState::\s*deep%s\s*\(" % X, b)]
+            sub = [q.start() for q in re.finditer(r"\bSubStates::\s*wide%s\s*\(" % X, b)]
+            if len(head) != 1 or len(sub) != 1:
+                raise TranslateError("C_::deep%s: expected exactly one HeadState::deep%s(...) and one SubStates::wide%s(...), found %d / %d" % (X, X, X, len(head), len(sub)))
+            if head[0] < sub[0]:
+                head_first.append(code)
+        d["headFirstCodes"] = ("", "[%s]" % ", ".join(map(str, sorted(head_first))))
+
+    _try('phases', g_phases, failed)
+
     return d, failed
 
 def translate_call(expr, leanvar, cxxvar):
@@ -371,9 +438,10 @@ ORDER = ["bitsShort", "bitsLong", "bitsStateID", "bitsProng", "INVALID_SHORT", "
          "activityBitWrites", "activityBitReads",
          "taskCapacity", "defaultSubstitutionLimit", "defaultTaskCapacity", "substitutionLoopCount", "substLoopStart", "substLoopInclusive",
          "halfL", "halfR", "lowerKeeps", "upperSkips", "lStateId", "lProngIndex", "rStateId", "rProngIndex", "rProng", "goesLeft", "dispatchSites",
-         "findStep", "findHit", "findMiss", "findStart", "byteCount", "unitCount"]
+         "findStep", "findHit", "findMiss", "findStart", "byteCount", "unitCount", "ownFirstCodes", "restFirstCodes", "headFirstCodes"]
 
-TYPES = {"activityBitWrites": "List (Nat × Nat)", "activityBitReads": "List Nat", "substLoopInclusive": "Bool"}
+TYPES = {"activityBitWrites": "List (Nat × Nat)", "activityBitReads": "List Nat", "substLoopInclusive": "Bool",
+         "ownFirstCodes": "List Nat", "restFirstCodes": "List Nat", "headFirstCodes": "List Nat"}
 
 
 def render(d, source_note):
@@ -422,6 +490,8 @@ GROUPS = {
     "halving": ["halfL", "halfR", "lowerKeeps", "upperSkips", "lStateId", "lProngIndex", "rStateId", "rProngIndex", "rProng", "goesLeft", "dispatchSites"],
     "find": ["findStep", "findHit", "findMiss", "findStart"],
     "buffers": ["byteCount", "unitCount"],
+    "layers": ["ownFirstCodes", "restFirstCodes"],
+    "phases": ["headFirstCodes"],
 }
 FALLBACK = os.path.join(HERE, "gen_fallback.json")
 
